@@ -331,6 +331,42 @@ def r2_25(ctx):
               "stub says `x: Union[int, str]`)", facts)
 
 
+@rule("R2.26", "C02", floor=1)
+def r2_26(ctx):
+  """A store to a free variable (`nonlocal y`) consults the table of the frame that owns y."""
+  mod = get_module(ctx, VM)
+  methods = mod.methods("VirtualMachine")
+  h = "byte_STORE_DEREF"
+  if h not in methods or SINK not in methods:
+    raise AnalysisError(f"VirtualMachine.{h} / {SINK} not found")
+  if "STORE_DEREF" not in opcode.opmap or opcode.opmap["STORE_DEREF"] not in opcode.hasfree:
+    raise AnalysisError("host CPython: STORE_DEREF is not a free-variable opcode")
+  r = _Reach(methods)
+  r.run(h, {})
+  if not r.hits:
+    raise AnalysisError(f"{h} never reaches {SINK} (R2.24 reports that)")
+  owner_aware = False
+  for p, t, c, ln in r.hits:
+    for a in _alternatives(t):
+      if a[0] == "expr" and ("annotated_locals" in str(a[1]) or "f_back" in str(a[1])
+                             or "frames" in str(a[1])):
+        owner_aware = True
+  # or the handler distinguishes cell variables from free ones explicitly
+  chain = {m for p, _, _, _ in r.hits for m in p}
+  for m in chain:
+    if any(isinstance(n, ast.Attribute) and n.attr in ("co_freevars", "co_cellvars")
+           for n in ast.walk(methods[m])):
+      owner_aware = True
+  ctx.check(owner_aware, "STORE_DEREF:free-variable-owner-table", VM, r.hits[0][3],
+            f"{h} hands {SINK} the *current* frame's table for every cell slot; "
+            "STORE_DEREF also stores free variables (`nonlocal y`), whose "
+            "annotation lives in the enclosing function's table: `def g(): y: int "
+            "= 0; def h(): nonlocal y; y = 't'` is accepted and g is inferred to "
+            "return str",
+            {"reaches": [{"via": list(p[1:]), "annotations_dict": str(t)[:120]}
+                         for p, t, c, _ in r.hits]})
+
+
 _DEREF_OLD = ("    value = self._apply_annotation(\n        state, op, name, value, "
               "self.current_annotated_locals, check_types=True\n    )\n"
               "    state = state.forward_cfg_node(f\"StoreDeref:{name}\")")
